@@ -202,6 +202,22 @@ theorem retarget_sound (src tgt : List Nat) (d d' : List Nat) (h : retarget src 
       · simp at h
     · simp at h
 
+/-- the same for the whole step including the "same encoding: return as is" shortcut: whenever
+the source data is valid text for its alphabet, a returned result decodes to the same text -/
+theorem retargetFull_sound (src tgt : List Nat) (d d' : List Nat) (text : Bytes)
+    (hd : specDecode src d = some text) (h : retargetFull src tgt d = some d') :
+    specDecode tgt d' = some text := by
+  unfold retargetFull at h
+  split at h
+  · rename_i he
+    have : src = tgt := by simpa using he
+    simp only [Option.some.injEq] at h
+    subst h; subst this; exact hd
+  · obtain ⟨t, h1, h2⟩ := retarget_sound src tgt d d' h
+    rw [hd] at h1
+    simp only [Option.some.injEq] at h1
+    rw [h2, h1]
+
 /-- the rule the code shipped with (prefix of length `max`, not `max+1`) is unsound:
 "ACG" in ACGT re-targeted to ACTG silently becomes "ACT". Kept as the recorded refutation. -/
 theorem retargetOld_unsound :
